@@ -11,14 +11,15 @@ Local Open Scope Z_scope.
 Section Statements.
   Variable St : Type.
   Variable body : mid -> list arg -> St -> Z -> bres St.
+  Variable after_mint : mid -> list arg -> St -> Z -> bres St.
   Variable transfer : St -> Z -> St.
-  Notation call := (evm_call St body transfer).
+  Notation call := (evm_call St body after_mint transfer).
 
   (** The gas handed back never exceeds the gas forwarded (and is never negative): for all facts,
       bodies, inputs, call kinds and values. *)
   Theorem C08_gas_bounded : forall F p k value gas inp st,
     0 <= gas -> 0 <= r_left (call F p k value gas inp st) <= gas.
-  Proof. exact (evm_call_gas_bounded St body transfer). Qed.
+  Proof. exact (evm_call_gas_bounded St body after_mint transfer). Qed.
 
   (** A failed call (error or out of gas) leaves the state exactly as it was — including the value
       the wrapper had already moved — and consumes all forwarded gas, whatever the body wrote
@@ -26,64 +27,65 @@ Section Statements.
   Theorem C08_error_leaves_no_state : forall F p k value gas inp st,
     is_err (r_out (call F p k value gas inp st)) = true ->
     r_st (call F p k value gas inp st) = st /\ r_left (call F p k value gas inp st) = 0.
-  Proof. exact (evm_call_error St body transfer). Qed.
+  Proof. exact (evm_call_error St body after_mint transfer). Qed.
 
   (** In every call the geth wrapper marks read-only (STATICCALL, DELEGATECALL, CALLCODE, and a CALL
       below a static frame on a tree whose EVM.Call hands the flag down) the state is unchanged and
       every method the ABI does not declare view is refused. *)
   Theorem C08_static_never_mutates : forall F p k value gas inp st,
-    guards_ok F = true -> query_bodies_readonly St body ->
+    guards_ok F = true -> query_bodies_readonly St body after_mint ->
     pc_readonly F k = true -> (transfers k = true -> value = 0) ->
     r_out (call F p k value gas inp st) <> Panic ->
     r_st (call F p k value gas inp st) = st /\
     (is_nonview (selected (pc_of F p) inp) = true -> r_out (call F p k value gas inp st) <> Ok).
-  Proof. exact (evm_call_readonly St body transfer). Qed.
+  Proof. exact (evm_call_readonly St body after_mint transfer). Qed.
 
   (** A query (ABI view) method never changes state in any call kind; the only thing that can differ
       after a successful one is the value the CALL itself attached (Oracle queries do not refuse value). *)
   Theorem C08_query_never_mutates : forall F p k value gas inp st mf,
-    guards_ok F = true -> query_bodies_readonly St body ->
+    guards_ok F = true -> query_bodies_readonly St body after_mint ->
     selected (pc_of F p) inp = Some mf -> mf_abi_view mf = true ->
     r_out (call F p k value gas inp st) <> Panic ->
     (r_st (call F p k value gas inp st) = st \/
      (r_out (call F p k value gas inp st) = Ok /\ transfers k = true /\ value <> 0 /\
       r_st (call F p k value gas inp st) = transfer st value)) /\
     (value = 0 -> r_st (call F p k value gas inp st) = st).
-  Proof. exact (evm_call_query St body transfer). Qed.
+  Proof. exact (evm_call_query St body after_mint transfer). Qed.
 
   (** … and not even that for queries behind assertContractQuery (all FunToken and Wasm queries). *)
   Theorem C08_guarded_query_never_mutates : forall F p k value gas inp st mf,
-    guards_ok F = true -> query_bodies_readonly St body ->
+    guards_ok F = true -> query_bodies_readonly St body after_mint ->
     selected (pc_of F p) inp = Some mf -> mf_abi_view mf = true -> mf_guard mf = GQuery ->
     r_out (call F p k value gas inp st) <> Panic ->
     r_st (call F p k value gas inp st) = st.
-  Proof. exact (evm_call_guarded_query St body transfer). Qed.
+  Proof. exact (evm_call_guarded_query St body after_mint transfer). Qed.
 
   (** With every modelled panic source behind its guard (short-calldata slice, sdk.NewCoin,
-      NewIntFromBigInt, collections string keys, the gas meter's out-of-gas panic) no input makes
+      NewIntFromBigInt, collections string keys, the 256-bit overflow of the bank supply under
+      MintCoins, the gas meter's out-of-gas panic) no input makes
       the call panic.  PARTIAL: panics inside the keeper-level bodies are outside the model. *)
   Theorem C08_no_panic_partial : forall F p k value gas inp st,
     panic_ok F = true -> input_wf inp = true ->
     r_out (call F p k value gas inp st) <> Panic.
-  Proof. exact (evm_call_no_panic St body transfer). Qed.
+  Proof. exact (evm_call_no_panic St body after_mint transfer). Qed.
 
   (** The whole property predicate — the one evaluated on implementation traces — holds of every
       model run. *)
   Theorem C08_model_satisfies_property : forall F p k value gas inp st,
     guards_ok F = true -> panic_ok F = true -> f_direct_ro F = true ->
-    query_bodies_readonly St body -> input_wf inp = true -> 0 <= gas ->
+    query_bodies_readonly St body after_mint -> input_wf inp = true -> 0 <= gas ->
     let r := call F p k value gas inp st in
     P k value gas (selected (pc_of F p) inp) (r_out r) (r_left r)
       (r_st r = st) (r_st r = st \/ r_st r = transfer st value).
-  Proof. exact (model_satisfies_P St body transfer). Qed.
+  Proof. exact (model_satisfies_P St body after_mint transfer). Qed.
 
   (** The clause for a CALL below a STATICCALL frame needs the geth fork to hand the flag down. *)
   Theorem C08_nested_static_if_inherited : forall F p k gas inp st,
     guards_ok F = true -> panic_ok F = true -> f_call_inherits_static F = true ->
-    query_bodies_readonly St body -> input_wf inp = true ->
+    query_bodies_readonly St body after_mint -> input_wf inp = true ->
     let r := call F p k 0 gas inp st in
     P_nested k (selected (pc_of F p) inp) (r_out r) (r_st r = st).
-  Proof. exact (model_satisfies_P_nested St body transfer). Qed.
+  Proof. exact (model_satisfies_P_nested St body after_mint transfer). Qed.
 End Statements.
 Print Assumptions C08_gas_bounded.
 Print Assumptions C08_error_leaves_no_state.
@@ -99,7 +101,7 @@ Print Assumptions C08_nested_static_if_inherited.
 Theorem C08_nested_static_refuted :
   f_call_inherits_static reference_facts = false /\
   exists p gas inp,
-    let r := evm_call Z sample_body sample_transfer reference_facts p (KCall true) 0 gas inp 0 in
+    let r := evm_call Z sample_body sample_after_mint sample_transfer reference_facts p (KCall true) 0 gas inp 0 in
     ~ P_nested (KCall true) (selected (pc_of reference_facts p) inp) (r_out r) (r_st r = 0).
 Proof. exact nested_static_refuted. Qed.
 Print Assumptions C08_nested_static_refuted.
@@ -107,30 +109,39 @@ Print Assumptions C08_nested_static_refuted.
 (** The tree before fix: 7d2b3b1 panics on calldata shorter than a selector … *)
 Theorem C08_no_panic_refuted_before_fix_short_calldata :
   exists p k v g inp,
-    r_out (evm_call Z sample_body sample_transfer (with_guards reference_facts no_len_guard) p k v g inp 0) = Panic.
+    r_out (evm_call Z sample_body sample_after_mint sample_transfer (with_guards reference_facts no_len_guard) p k v g inp 0) = Panic.
 Proof. exact no_panic_refuted_short_calldata. Qed.
 Print Assumptions C08_no_panic_refuted_before_fix_short_calldata.
 
 (** … and on bankMsgSend(to, "", 1). *)
 Theorem C08_no_panic_refuted_before_fix_empty_denom :
   exists p k v g inp, input_wf inp = true /\
-    r_out (evm_call Z sample_body sample_transfer (with_guards reference_facts no_denom_guard) p k v g inp 0) = Panic.
+    r_out (evm_call Z sample_body sample_after_mint sample_transfer (with_guards reference_facts no_denom_guard) p k v g inp 0) = Panic.
 Proof. exact no_panic_refuted_empty_denom. Qed.
 Print Assumptions C08_no_panic_refuted_before_fix_empty_denom.
 
 (** The tree before fix: e366d9b panics on a NUL character in sendToEvm's bank denom. *)
 Theorem C08_no_panic_refuted_before_fix_nul_denom :
   exists p k v g inp, input_wf inp = true /\
-    r_out (evm_call Z sample_body sample_transfer (with_guards reference_facts no_nul_guards) p k v g inp 0) = Panic.
+    r_out (evm_call Z sample_body sample_after_mint sample_transfer (with_guards reference_facts no_nul_guards) p k v g inp 0) = Panic.
 Proof. exact no_panic_refuted_nul_denom. Qed.
 Print Assumptions C08_no_panic_refuted_before_fix_nul_denom.
 
 (** The tree before fix: 170e86a lets the gas meter's panic escape the Oracle precompile. *)
 Theorem C08_no_panic_refuted_before_fix_oracle_oog :
   exists g inp, input_wf inp = true /\
-    r_out (evm_call Z greedy_body sample_transfer (with_oracle_oog reference_facts false) POracle KTop 0 g inp 0) = Panic.
+    r_out (evm_call Z greedy_body sample_after_mint sample_transfer (with_oracle_oog reference_facts false) POracle KTop 0 g inp 0) = Panic.
 Proof. exact no_panic_refuted_oracle_oog. Qed.
 Print Assumptions C08_no_panic_refuted_before_fix_oracle_oog.
+
+(** The tree before the supply-overflow fix panics in bank.MintCoins when sendToBank lifts the bank
+    supply of an ERC20-born FunToken to 2^256. *)
+Theorem C08_no_panic_refuted_before_fix_supply_overflow :
+  exists inp, input_wf inp = true /\
+    r_out (evm_call Z whale_body sample_after_mint sample_transfer (with_guards reference_facts no_supply_guard)
+             PFunToken KTop 0 3000000 inp 0) = Panic.
+Proof. exact no_panic_refuted_supply_overflow. Qed.
+Print Assumptions C08_no_panic_refuted_before_fix_supply_overflow.
 
 (** The boolean checkers evaluated on implementation traces are sound for [P] / [P_nested]. *)
 Theorem C08_checker_sound : forall k value gas m cls left (se ce : bool),
